@@ -204,7 +204,7 @@ def chk_geo(c, note):
 LEGS = [
     Leg("isa", chk_isa, strategy=s_isa, quick=8000, thorough=400000, doc="p, rho, T, a vs independent ISA; continuity at 11 km"),
     Leg("isa_table", chk_table, enum=enum_table, exhaustive=True, doc="9 tabulated ISA rows"),
-    Leg("conversions", chk_conv, strategy=s_conv, quick=16000, thorough=1500000, doc="inverse pairs, monotonicity, sea-level identities, orderings"),
+    Leg("conversions", chk_conv, strategy=s_conv, quick=16000, thorough=800000, doc="inverse pairs, monotonicity, sea-level identities, orderings"),
     Leg("arrays", chk_arrays, strategy=s_arrays, quick=3000, thorough=100000, doc="numpy-array arguments == element-wise scalars"),
-    Leg("geo", chk_geo, strategy=s_geo, quick=16000, thorough=1000000, doc="distance symmetry/haversine, bearing range"),
+    Leg("geo", chk_geo, strategy=s_geo, quick=16000, thorough=500000, doc="distance symmetry/haversine, bearing range"),
 ]
